@@ -64,8 +64,8 @@ class under_test:
     def __exit__(self, et, ev, tb):
         if et is None or et is UnderTestError:
             return False
-        if et in (KeyboardInterrupt, SystemError, MemoryError):
-            return False
+        if et in (KeyboardInterrupt, SystemError, MemoryError) or getattr(et, "_vf_harness", False):
+            return False   # (exceptions raised by the harness itself pass through unchanged)
         frame = "?"
         for fs in traceback.extract_tb(tb):
             fn = fs.filename.replace("\\", "/")
